@@ -20,13 +20,74 @@ META = {
 }
 
 
+def reuse_case(rep, r: dict) -> None:
+    """the kick depends on the bunch it is applied to (charge, energy, coordinates) and the element's settings, not on
+    what the element tracked before: a re-used SpaceChargeKick gives exactly the result of a fresh one"""
+    import numpy as np
+    import torch
+    import cheetah
+    dt = torch.float64
+    t = lambda v: torch.tensor(v, dtype=dt)  # noqa: E731
+    P1, P2 = np.array(r["P1"], dtype=float), np.array(r["P2"], dtype=float)
+    mk = lambda: cheetah.SpaceChargeKick(effect_length=t(r["L"]), num_grid_points_x=r["grid"][0], num_grid_points_y=r["grid"][1],  # noqa: E731
+                                         num_grid_points_tau=r["grid"][2], dtype=dt)
+    beam = lambda P, En, q: cheetah.ParticleBeam(t(P), t(En), particle_charges=t(np.full(P.shape[0], q / P.shape[0])), dtype=dt)  # noqa: E731
+    used, fresh = mk(), mk()
+    if r["where"] == "segment":
+        used, fresh = cheetah.Segment([used]), cheetah.Segment([fresh])
+    used.track(beam(P1, r["E1"], r["q1"]))
+    a = used.track(beam(P2, r["E2"], r["q2"])).particles.detach().numpy()
+    b = fresh.track(beam(P2, r["E2"], r["q2"])).particles.detach().numpy()
+    if not np.array_equal(np.isfinite(a), np.isfinite(b)):
+        rep.fail("falsifier", "C19|SpaceChargeKick|re-used element|non-finite", "a re-used element gives non-finite values where a fresh one does not", r)
+        return
+    kick = np.abs(b - P2)[:, [1, 3, 5]].max()
+    d = np.abs(a - b)[:, [1, 3, 5]].max()
+    if not d <= 1e-9 * max(kick, 1e-300):
+        rep.fail("falsifier", f"C19|SpaceChargeKick|re-used element|{r['change']}",
+                 f"element that first tracked a bunch with (E={r['E1']!r} eV, Q={r['q1']!r} C) kicks the next bunch (E={r['E2']!r} eV, Q={r['q2']!r} C, "
+                 f"{r['change']}) differently from a fresh element: max |d p| = {d:.3g}, the kick itself is {kick:.3g}", r)
+
+
+def reuse_probe(ctx, n: int) -> None:
+    import numpy as np
+    import elements as E
+    rep, rng = ctx.report, ctx.rng
+    for _ in range(n):
+        N = 200
+        P = np.zeros((N, 7))
+        P[:, 6] = 1.0
+        sig = np.array([10.0 ** rng.uniform(-4.5, -3), 0, 10.0 ** rng.uniform(-4.5, -3), 0, 10.0 ** rng.uniform(-4.5, -3), 0])
+        P[:, :6] = rng.normal(size=(N, 6)) * sig
+        change = E.pick(rng, "same coordinates, other energy", "same coordinates, other charge", "other coordinates", "same bunch")
+        E1 = float(E.pick(rng, 2.5e7, 1e8, 2.5e8))
+        r = {"kind": "reuse", "L": float(E.pick(rng, 0.1, 0.5, 1.0)), "grid": [int(E.pick(rng, 8, 12)), int(E.pick(rng, 8, 12, 10)), int(E.pick(rng, 8, 12))],
+             "P1": P.tolist(), "P2": P.tolist(), "E1": E1, "E2": E1, "q1": 1e-9, "q2": 1e-9, "change": change,
+             "where": E.pick(rng, "alone", "segment")}
+        if change == "same coordinates, other energy":
+            r["E2"] = E1 * float(E.pick(rng, 0.1, 4.0, 10.0))
+        elif change == "same coordinates, other charge":
+            r["q2"] = 1e-9 * float(E.pick(rng, 0.1, 3.0))
+        elif change == "other coordinates":
+            P2 = P.copy()
+            P2[:, :6] = rng.normal(size=(N, 6)) * sig * np.array([2.0, 0, 0.5, 0, 1.0, 0])
+            r["P2"] = P2.tolist()
+        rep.fals_cases += 1
+        rep.count("probe:reuse:" + change)
+        rep.case(("reuse", change, r["where"]), None)
+        reuse_case(rep, r)
+
+
 def run(ctx) -> None:
+    reuse_probe(ctx, ctx.n(12, 200))
     run_sc_correspondence(ctx, "C19", ctx.n(40, 800))
     if F is not None:
         F.run(ctx)
 
 
 def corpus_case(ctx, r: dict) -> None:
+    if r.get("kind") == "reuse":
+        return reuse_case(ctx.report, r)
     if F is not None and hasattr(F, "corpus_case"):
         F.corpus_case(ctx, r)
 
